@@ -1890,7 +1890,8 @@ value_mon_impl!(
     [Num, num],
     [Byte, byte],
     [Complex, com],
-    |val, flags| if val.rank() < 2 {
+    // Only rounding real numbers keeps their order
+    |val, flags| if val.rank() < 2 && matches!(val, Value::Num(_) | Value::Byte(_)) {
         val.meta.or_sorted_flags(flags)
     }
 );
@@ -1899,7 +1900,8 @@ value_mon_impl!(
     [Num, num],
     [Byte, byte],
     [Complex, com],
-    |val, flags| if val.rank() < 2 {
+    // Only rounding real numbers keeps their order
+    |val, flags| if val.rank() < 2 && matches!(val, Value::Num(_) | Value::Byte(_)) {
         val.meta.or_sorted_flags(flags)
     }
 );
@@ -1908,7 +1910,8 @@ value_mon_impl!(
     [Num, num],
     [Byte, byte],
     [Complex, com],
-    |val, flags| if val.rank() < 2 {
+    // Only rounding real numbers keeps their order
+    |val, flags| if val.rank() < 2 && matches!(val, Value::Num(_) | Value::Byte(_)) {
         val.meta.or_sorted_flags(flags)
     }
 );
